@@ -308,14 +308,20 @@ func c17History(c *Ctx, idx int, seed int64, sp *e2eSpec, dir string) {
 			writes[e.Name] = append(writes[e.Name], e.Seq)
 		}
 	}
-	scanOf := 0
+	// a push belongs to the scan that found the file: the latest scan before it that
+	// LISTED the name (hashing and queueing of a scan's batch can take many seconds,
+	// so the latest scan event before the push may be a younger, unrelated one)
+	scanFound := map[string]int{}
 	for _, e := range o.events {
 		if e.Kind == "scan" {
-			scanOf = int(e.B)
+			for _, nm := range strings.Split(e.S, ",") {
+				scanFound[nm] = int(e.B)
+			}
 		}
 		if e.Kind != "q_push" || e.S != "plain" {
 			continue
 		}
+		scanOf := scanFound[e.Name]
 		for _, d := range dones[e.Name] {
 			// only a scan that STARTED after the confirmation counts as "later"
 			if e.Seq <= d.seq || scanOf <= d.seq {
